@@ -523,7 +523,10 @@ Choices(b, c) ==
       [] c.ctx \in {"object", "nested", "inline-object", "request", "response", "topicmsg"} ->
             IF n < MaxFields THEN FieldChoices(b, c, n) ELSE {}
       [] c.ctx \in {"oneof", "inline-oneof"} -> IF n < MaxFields THEN OptionChoices(b, c, n) ELSE {}
-      [] c.ctx \in {"enum", "inline-enum"} -> IF n < MaxFields THEN EnumOptionChoices(n) ELSE {}
+      [] c.ctx \in {"enum", "inline-enum"} ->
+            IF n < MaxFields
+            THEN LET have == { GetNode(b, c.path)[c.list][i] : i \in 1..n } IN { x \in EnumOptionChoices(n) : x.e \notin have }
+            ELSE {}
       [] c.ctx = "service" -> IF n < MaxFields THEN MethodChoices(GetNode(b, c.path).name, n) ELSE {}
       [] c.ctx = "topic" -> IF n < MaxFields THEN TopicMessageChoices(GetNode(b, c.path).name, n) ELSE {}
       [] c.ctx = "nest" -> IF n < 1 THEN NestChoices(n) ELSE {}
